@@ -24,7 +24,8 @@ Inductive aev :=
 | AChange (full : bool)
 | ALeader
 | ATick (full : bool)
-| AAttempt (full : bool) (err : bool) (requeue : bool).
+| AAttempt (full : bool) (err : bool) (requeue : bool)
+| AReload.                      (* the reload queue fired services.reloadHAProxy *)
 
 Record lobs := {
   ob_rp : bool; ob_rf : bool;     (* ready: rparam{false}, rparam{true} *)
@@ -59,6 +60,7 @@ Fixpoint lreplay (s : lstate) (l : list (aev * lobs)) : bool :=
       | AAttempt full err requeue =>
         (rset_mem (q_ready (ls_q s)) full && Bool.eqb err requeue,
          {| ls_q := q_attempt (ls_q s) full err; ls_failed := err; ls_attempted := true |})
+      | AReload => (true, s)      (* touches neither the work queue nor lastFailed *)
       end in
     ok && lobs_ok s' o &&
     (* when the model says nothing is pending, the comparison must have been made and hold *)
